@@ -25,6 +25,12 @@ package pathbadger
 //@   precall badger/v4\.WriteBatch\)\.Delete$ :: exists && version < lastFinalizedVersion
 //@   note data is removed only for a version that is finalized, is the earliest retained one and is not the last finalized one, and never on a read-only database or while a multipart restore is in progress: every other finalized version is left alone by Prune
 
+//@ func badgerNodeDB.Finalize
+//@   props C06
+//@   requires d != nil
+//@   precall badger/v4\.Txn\)\.NewIterator$ :: defined(pendingPrefix) ==> keyId(pendingPrefix) == keyOf(pendingNodeKeyFmt, version)
+//@   note the sweep that deletes the temporary (pending, seqNo > 0) nodes at the end of Finalize is confined to the version being finalized: candidate roots of LATER versions that were committed early keep their own pending nodes until their own finalization (seed C06_f)
+
 // ---- chunk (multipart) commits vs Finalize (C06, C12) ----
 //
 // Finalize moves the nodes of a finalized root from their pending keys
